@@ -72,7 +72,8 @@ func (d c04Digest) toks() string {
 }
 
 type c04Op struct {
-	Kind    string // upload create copy delete prune plant corrupt dashify litter
+	Kind    string // upload create copy delete prune plant corrupt dashify litter litterman pull noprune
+	On      bool   // noprune: the value OLLAMA_NOPRUNE takes from here on (envconfig reads it at every call)
 	File    string // litter: file name inside blobs/
 	Path     []string // litterman: path components below manifests/ (last one ends in "@" for a dangling symlink)
 	Reg      *c04Reg // pull: what the registry serves for the name (nil: it has no such model)
@@ -87,6 +88,7 @@ type c04Op struct {
 	Sys     []byte
 	Lics    [][]byte
 	Params  [][2]string // key, raw JSON value
+	Msgs    [][2]string // create: messages as role, content (texts that need no JSON escaping)
 	Src     c04Name
 	Dst     c04Name
 }
@@ -159,6 +161,13 @@ func (o c04Op) line() string {
 		} else {
 			sb.WriteString(" stream")
 		}
+		if len(o.Msgs) > 0 {
+			// (an optional suffix: histories recorded before messages were modelled stay replayable)
+			sb.WriteString(" msgs " + strconv.Itoa(len(o.Msgs)))
+			for _, m := range o.Msgs {
+				sb.WriteString(" " + zzverif.Hex([]byte(m[0])) + " " + zzverif.Hex([]byte(m[1])))
+			}
+		}
 		return sb.String()
 	case "copy", "plant":
 		return o.Kind + " " + o.Src.toks() + " " + o.Dst.toks()
@@ -166,6 +175,11 @@ func (o c04Op) line() string {
 		return o.Kind + " " + o.Name.toks()
 	case "prune":
 		return "prune"
+	case "noprune":
+		if o.On {
+			return "noprune 1"
+		}
+		return "noprune 0"
 	case "litter":
 		return "litter " + zzverif.Hex([]byte(o.File)) + " " + zzverif.Hex(o.Content)
 	case "litterman":
@@ -258,12 +272,22 @@ func c04ParseOp(s string) c04Op {
 			o.Params = append(o.Params, [2]string{a, b})
 		}
 		o.NoStream = p.next() == "nostream"
+		if p.i < len(p.t) && p.t[p.i] == "msgs" {
+			p.next()
+			for i, k := 0, p.int(); i < k; i++ {
+				a := string(zzverif.Unhex(p.next()))
+				b := string(zzverif.Unhex(p.next()))
+				o.Msgs = append(o.Msgs, [2]string{a, b})
+			}
+		}
 	case "copy", "plant":
 		o.Src = p.name()
 		o.Dst = p.name()
 	case "delete", "corrupt", "dashify":
 		o.Name = p.name()
 	case "prune":
+	case "noprune":
+		o.On = p.next() == "1"
 	case "litter":
 		o.File = string(zzverif.Unhex(p.next()))
 		o.Content = zzverif.Unhex(p.next())
@@ -403,6 +427,13 @@ func (s *c04Server) exec(o c04Op) string {
 			}
 			req["parameters"] = p
 		}
+		if len(o.Msgs) > 0 {
+			var ms []map[string]string
+			for _, m := range o.Msgs {
+				ms = append(ms, map[string]string{"role": m[0], "content": m[1]})
+			}
+			req["messages"] = ms
+		}
 		if o.NoStream {
 			// waitForStream: one JSON answer, the status code carries the first error or the success
 			req["stream"] = false
@@ -444,6 +475,13 @@ func (s *c04Server) exec(o c04Op) string {
 				return "err"
 			}
 		}
+		return "ok"
+	case "noprune":
+		v := ""
+		if o.On {
+			v = "1"
+		}
+		s.t.Setenv("OLLAMA_NOPRUNE", v)
 		return "ok"
 	case "plant":
 		b, err := os.ReadFile(s.manifestPath(o.Src))
@@ -999,6 +1037,7 @@ type c04Run struct {
 	dashHex map[string]bool // hex ids that were supplied in dash form in this history
 	litter  map[string]bool // file names the driver itself put into blobs/ in this history
 	failed  bool            // an L2 monitor fired: the history ends
+	noPrune bool            // OLLAMA_NOPRUNE is set at this point of the history
 	snap    *c04Snap
 }
 
@@ -1084,6 +1123,12 @@ func (r *c04Run) apply(o c04Op) {
 			r.litter["sha256-"+o.File[7:]] = true // what fixBlobs will rename it to
 		}
 		r.out.Count("litter_class_" + c04NameClass(o.File))
+	}
+	if o.Kind == "noprune" {
+		r.noPrune = o.On
+	}
+	if r.noPrune {
+		r.out.Count("noprune_op_" + o.Kind)
 	}
 	r.ops = append(r.ops, o.line())
 	result := r.srv.exec(o)
@@ -1206,7 +1251,28 @@ func (r *c04Run) apply(o c04Op) {
 	}
 
 	// ---- L2: startup prune leaves exactly the referenced blobs
-	if o.Kind == "prune" && result == "ok" {
+	// ---- L2 (OLLAMA_NOPRUNE): the start-up sequence and a pull delete no file of blobs/ at all (the start-up
+	// sequence may rename `sha256:<x>` to `sha256-<x>`), and the start-up sequence leaves manifests/ alone
+	if r.noPrune && pre != nil && (o.Kind == "prune" || o.Kind == "pull") {
+		have := map[string]bool{}
+		for _, b := range post.blobs {
+			have[b.file] = true
+		}
+		for _, b := range pre.blobs {
+			f := b.file
+			if o.Kind == "prune" && strings.HasPrefix(f, "sha256:") {
+				f = "sha256-" + f[7:]
+			}
+			if !have[f] {
+				r.l2("noprune-removed", fmt.Sprintf("op=%s result=%s file=%s class=%s", o.Kind, result, b.file, c04NameClass(b.file)))
+			}
+		}
+		if o.Kind == "prune" && strings.Join(pre.tree, ",") != strings.Join(post.tree, ",") {
+			r.l2("noprune-removed", fmt.Sprintf("op=prune result=%s tree-changed", result))
+		}
+		r.out.Count("noprune_checked_" + o.Kind)
+	}
+	if o.Kind == "prune" && result == "ok" && !r.noPrune {
 		ref := map[string]bool{}
 		for _, m := range post.mans {
 			if m.readable {
@@ -1320,6 +1386,148 @@ func (r *c04Run) apply(o c04Op) {
 	if c04Mixed(post) {
 		r.out.Count("steps_mixed_spelling")
 	}
+	r.branchCounters(o, result, pre, post)
+}
+
+// branchCounters names, from what the REAL code did, the branch of the model that the operation exercised
+// (the check fails closed when a branch the theorems talk about is never reached: `correspondence-coverage`).
+func (r *c04Run) branchCounters(o c04Op, result string, pre, post *c04Snap) {
+	if pre == nil {
+		return
+	}
+	allOf := func(m *c04Man) []Layer { return append(append([]Layer{}, m.m.Layers...), m.m.Config) }
+	// the readable manifest this operation replaced or removed, if any (the only name whose manifest changed)
+	var old *c04Man
+	for i := range pre.mans {
+		pm := &pre.mans[i]
+		if qm := post.man(pm.name); pm.readable && (qm == nil || !bytes.Equal(qm.raw, pm.raw)) {
+			old = pm
+		}
+	}
+	gc := func(tag string) {
+		if old == nil {
+			r.out.Count("br_" + tag + "_fresh")
+			return
+		}
+		r.out.Count("br_" + tag + "_replaced")
+		var now *c04Man
+		if qm := post.man(old.name); qm != nil && qm.readable {
+			now = qm
+		}
+		for _, l := range allOf(old) {
+			key := c04Key(l.Digest)
+			still := false
+			if now != nil {
+				for _, x := range allOf(now) {
+					if c04Key(x.Digest) == key {
+						still = true
+					}
+				}
+			}
+			if still || pre.blob(key) == nil {
+				continue
+			}
+			switch {
+			case post.blob(key) == nil:
+				r.out.Count("br_" + tag + "_old_layer_removed")
+			case r.noPrune && tag != "delete":
+				r.out.Count("br_" + tag + "_old_layer_kept_noprune")
+			default:
+				r.out.Count("br_" + tag + "_old_layer_kept_in_use")
+			}
+		}
+	}
+	switch {
+	case o.Kind == "create" && strings.HasSuffix(result, "s"):
+		gc("create")
+		if o.From == nil {
+			for _, m := range post.mans {
+				if !m.readable || pre.man(m.name) != nil && bytes.Equal(pre.man(m.name).raw, m.raw) {
+					continue
+				}
+				for _, l := range m.m.Layers {
+					k := c04Key(l.Digest)
+					if c04MediaCode[l.MediaType] == "T" && r.pool.autoT[k] && (o.Tmpl == nil || c04Sum(o.Tmpl) != k) {
+						r.out.Count("br_create_auto_template_layer")
+					}
+					if c04MediaCode[l.MediaType] == "P" && r.pool.autoP[k] {
+						r.out.Count("br_create_auto_params_layer")
+					}
+				}
+			}
+		}
+		if o.Tmpl != nil {
+			r.out.Count("br_create_template_override")
+		}
+		if o.Sys != nil {
+			r.out.Count("br_create_system_override")
+		}
+		if len(o.Params) > 0 {
+			r.out.Count("br_create_params")
+		}
+		if len(o.Lics) > 0 {
+			r.out.Count("br_create_license")
+		}
+		if len(o.Msgs) > 0 {
+			r.out.Count("br_create_messages")
+			if old != nil {
+				for _, l := range old.m.Layers {
+					if c04MediaCode[l.MediaType] == "G" {
+						r.out.Count("br_create_messages_over_old_messages")
+					}
+				}
+			}
+		}
+	case o.Kind == "create" && o.Tmpl != nil && !o.TmplOK && result == "e400":
+		r.out.Count("br_create_bad_template")
+	case o.Kind == "delete" && result == "h200":
+		gc("delete")
+	case o.Kind == "pull" && result == "s":
+		gc("pull")
+	case o.Kind == "copy" && result == "h200":
+		if o.Src.equalFold(o.Dst) {
+			r.out.Count("br_copy_same")
+		} else if old != nil {
+			r.out.Count("br_copy_over_existing")
+		} else {
+			r.out.Count("br_copy_fresh")
+		}
+	case o.Kind == "copy" && result == "h404":
+		if len(post.tree) > len(pre.tree) {
+			r.out.Count("br_copy_404_made_directories")
+		}
+	}
+	if o.Kind == "pull" && o.Reg != nil {
+		for _, l := range append(append([]c04RegLayer{}, o.Reg.Layers...), o.Reg.Config) {
+			k := c04Sum(l.Content)
+			switch {
+			case pre.blob(k) != nil:
+				r.out.Count("br_pull_layer_cache_hit")
+			case post.blob(k) != nil:
+				r.out.Count("br_pull_layer_fetched")
+			}
+		}
+		if result != "s" && len(post.blobs) > len(pre.blobs) {
+			r.out.Count("br_pull_failed_leaves_orphans")
+		}
+	}
+	if (o.Kind == "delete" && result == "h200" || o.Kind == "prune" && result == "ok" && !r.noPrune) && len(post.tree) < len(pre.tree) {
+		r.out.Count("br_" + o.Kind + "_removed_directories")
+	}
+	if o.Kind == "prune" {
+		for _, b := range pre.blobs {
+			if strings.HasPrefix(b.file, "sha256:") && c04IsHex64(b.file[7:]) {
+				if pre.blob(b.file[7:]) != nil {
+					r.out.Count("br_fixblobs_renamed_over_existing")
+				} else {
+					r.out.Count("br_fixblobs_renamed")
+				}
+			}
+		}
+		if result == "ok" && !r.noPrune && len(post.blobs) < len(pre.blobs) {
+			r.out.Count("br_prune_removed_files")
+		}
+	}
 }
 
 // ---------------------------------------------------------------- generators
@@ -1329,7 +1537,8 @@ type c04Gen struct {
 	noStreamOK bool // N1 is repaired in the tree under test: non-streaming creates are deterministic
 	r      *zzverif.Rng
 	pool   *c04Pool
-	class  int // 0 canonical, 1 alias, 2 legacy, 3 fault, 4 from-error
+	class  int // 0 canonical, 1 alias, 2 legacy, 3 fault, 4 from-error, 5 litter, 6 OLLAMA_NOPRUNE toggled
+	noPrune bool // class 6: the current value of OLLAMA_NOPRUNE
 	hosts  []string
 	nss    []string
 	models []string
@@ -1345,6 +1554,14 @@ func c04NewGen(r *zzverif.Rng, pool *c04Pool, class int) *c04Gen {
 	// every history may spell requests with different case; without `plant` the server canonicalises them
 	g.hosts = append(g.hosts, "Example.com")
 	g.nss = append(g.nss, "Other")
+	// case variants of the DEFAULT namespace / host: what DisplayShortest() elides and a re-parse spells canonically
+	// (N3, seeded C04-L); the first name-based operation of a history fixes the spelling of the whole store
+	if r.Chance(1, 3) {
+		g.nss = append(g.nss, zzverif.Pick(r, []string{"Library", "LIBRARY", "liBRARY"}))
+	}
+	if r.Chance(1, 5) {
+		g.hosts = append(g.hosts, zzverif.Pick(r, []string{"Registry.Ollama.AI", "REGISTRY.OLLAMA.AI"}))
+	}
 	g.tags = append(g.tags, "V1", "Latest")
 	k := r.Range(1, 3)
 	for i := 0; i < k; i++ {
@@ -1410,6 +1627,13 @@ func (g *c04Gen) overrides(o *c04Op, p int) {
 			}
 		}
 		sort.Slice(o.Params, func(i, j int) bool { return o.Params[i][0] < o.Params[j][0] })
+	}
+	if g.r.Chance(p, 20) {
+		// MESSAGE lines of a Modelfile (setMessages: the old messages layers are dropped, then the new one stored)
+		for i, k := 0, g.r.Range(1, 2); i < k; i++ {
+			o.Msgs = append(o.Msgs, [2]string{zzverif.Pick(g.r, []string{"user", "assistant", "system", "User"}),
+				zzverif.Pick(g.r, []string{"hi", "hello there", "You are terse.", "2+2?", "4"})})
+		}
 	}
 }
 
@@ -1479,6 +1703,17 @@ func (g *c04Gen) litterManOp(sn *c04Snap) c04Op {
 // litterOp puts a file into blobs/ whose name is not (or not quite) a blob name: every class of name that
 // PruneLayers / fixBlobs distinguish.
 func (g *c04Gen) litterOp(sn *c04Snap) c04Op {
+	for {
+		o := g.litterOp0(sn)
+		// (class 6 also pulls: a planted `…-partial-N` file would be read as the part record of an interrupted pull —
+		// C03/C12's model, see next0)
+		if g.class != 6 || !strings.Contains(o.File, "-partial") {
+			return o
+		}
+	}
+}
+
+func (g *c04Gen) litterOp0(sn *c04Snap) c04Op {
 	c := zzverif.Pick(g.r, g.pool.ggufs)
 	h := c04Sum(c)
 	if sn != nil && len(sn.blobs) > 0 && g.r.Chance(1, 2) {
@@ -1624,6 +1859,15 @@ func (g *c04Gen) next0(sn *c04Snap) c04Op {
 		if n, ok := g.existing(sn, false); ok {
 			return c04Op{Kind: "dashify", Name: n}
 		}
+	case g.class == 6 && g.r.Chance(1, 12):
+		g.noPrune = !g.noPrune
+		return c04Op{Kind: "noprune", On: g.noPrune}
+	case g.class == 6 && g.r.Chance(1, 8):
+		return c04Op{Kind: "prune"}
+	case g.class == 6 && g.r.Chance(1, 10):
+		return g.litterOp(sn)
+	case g.class == 6 && g.r.Chance(1, 16):
+		return g.litterManOp(sn)
 	case g.class == 5 && g.r.Chance(1, 8):
 		return g.litterManOp(sn)
 	case g.class == 5 && g.r.Chance(1, 5):
@@ -1709,6 +1953,7 @@ func (r *c04Run) begin(t *testing.T, base string, idx int) {
 	r.dashHex = map[string]bool{}
 	r.litter = map[string]bool{}
 	r.failed = false
+	r.noPrune = false
 	r.out.Case("reset", "ok")
 	r.snap = r.srv.snapshot()
 }
@@ -1942,6 +2187,28 @@ func TestVerifC04(t *testing.T) {
 			{Kind: "litterman", Path: []string{"h2", ".dangling@"}}, mk(nm("library", "c"), false, g0),
 			{Kind: "litterman", Path: []string{"registry.ollama.ai", "library", "c", ".DS_Store"}}, {Kind: "prune"},
 			{Kind: "delete", Name: nm("library", "c")}, {Kind: "prune"}},
+		// OLLAMA_NOPRUNE: re-create / pull over a model and the start-up sequence leave everything; delete does not
+		// look at the switch; switched off again the start-up prune collects what was left
+		{{Kind: "noprune", On: true}, up(g0), up(g1), mk(nm("library", "a"), false, g0), mk(nm("library", "a"), false, g1),
+			{Kind: "litter", File: "sha256-" + c04Sum(g1) + "-partial", Content: []byte("x")},
+			{Kind: "litter", File: "sha256:" + c04Sum(pool.ggufs[2]), Content: pool.ggufs[2]}, {Kind: "prune"},
+			{Kind: "pull", Name: nm("library", "a"), Reg: &c04Reg{Layers: []c04RegLayer{{Media: "M", Content: g0}}, Config: c04RegLayer{Media: "C", Content: c04Config("llama", 1)}}},
+			{Kind: "corrupt", Name: nm("library", "a")}, {Kind: "prune"},
+			mk(nm("library", "b"), false, g1), {Kind: "delete", Name: nm("library", "b")},
+			{Kind: "delete", Name: nm("library", "a")}, {Kind: "noprune", On: false}, {Kind: "prune"}},
+		// MESSAGE: the messages layer is replaced (drop, then store), shared between a model and its copy, and its
+		// text may equal a SYSTEM text of another model
+		{up(g0), {Kind: "create", Name: nm("library", "a"), Files: []c04Digest{{Hex: c04Sum(g0)}}, Msgs: [][2]string{{"user", "hi"}, {"assistant", "hello there"}}},
+			{Kind: "copy", Src: nm("library", "a"), Dst: nm("library", "c")},
+			{Kind: "create", Name: nm("library", "a"), From: &c04Name{"registry.ollama.ai", "library", "a", "latest"}, Msgs: [][2]string{{"User", "2+2?"}}},
+			{Kind: "create", Name: nm("library", "b"), From: &c04Name{"registry.ollama.ai", "library", "c", "latest"}, Sys: pool.syss[0]},
+			{Kind: "create", Name: nm("library", "c"), From: &c04Name{"registry.ollama.ai", "library", "c", "latest"}, Msgs: [][2]string{{"user", "hi"}}},
+			{Kind: "delete", Name: nm("library", "b")}, {Kind: "delete", Name: nm("library", "a")}, {Kind: "prune"}},
+		// a default namespace / host first spelled in another letter case, then list + show (seeded C04-L)
+		{up(g0), mk(c04Name{"registry.ollama.ai", "Library", "demo", "latest"}, false, g0),
+			{Kind: "copy", Src: c04Name{"registry.ollama.ai", "library", "demo", "latest"}, Dst: nm("library", "demo2")},
+			{Kind: "copy", Src: nm("library", "demo"), Dst: c04Name{"Registry.Ollama.AI", "library", "y", "latest"}},
+			{Kind: "delete", Name: nm("library", "demo")}},
 		// N3: a pull that is resolved to a model under a differently-cased default namespace
 		{up(g0), mk(c04Name{"registry.ollama.ai", "LiBRARy", "foo", "latest"}, false, g0),
 			{Kind: "pull", Name: nm("library", "foo"), Reg: &c04Reg{Layers: []c04RegLayer{{Media: "M", Content: g0}}, Config: c04RegLayer{Media: "C", Content: c04Config("llama", 1)}}}},
@@ -2016,8 +2283,10 @@ func TestVerifC04(t *testing.T) {
 			class = 2
 		case x < 86:
 			class = 3
-		case x < 91:
+		case x < 90:
 			class = 4
+		case x < 93:
+			class = 6 // OLLAMA_NOPRUNE switched on and off inside the history
 		default:
 			class = 5 // non-blob file names in blobs/ + frequent startup prunes
 		}
@@ -2027,6 +2296,10 @@ func TestVerifC04(t *testing.T) {
 		g.count = out.Count
 		run.begin(t, base, hist)
 		hist++
+		if class == 6 {
+			g.noPrune = true
+			run.apply(c04Op{Kind: "noprune", On: true})
+		}
 		// most histories start with a few blobs in place
 		for i, k := 0, r.Range(0, 4); i < k; i++ {
 			run.apply(up(zzverif.Pick(r, pool.ggufs)))
